@@ -532,7 +532,7 @@ fn run_kind(kind: Kind, h: &[Hop]) -> Result<Outcome, String> {
 }
 
 pub fn run(cfg: &Cfg, rep: &mut Report) {
-  let total = cfg.n(200_000, 24_000_000);
+  let total = cfg.n(800_000, 24_000_000);
   let max_len = cfg.n(12, 30);
   let kinds = [Kind::Local, Kind::Threads, Kind::MutItem, Kind::MutErr, Kind::MutItemErr];
   let mut rng = Rng::new(cfg.seed ^ 0xC06);
@@ -587,7 +587,7 @@ pub fn run(cfg: &Cfg, rep: &mut Report) {
   }
 
   // thread part: 2-3 threads each running a history on clones of one SubjectThreads (baton scheduler)
-  let n = cfg.n(6_000, 600_000);
+  let n = cfg.n(12_000, 600_000);
   super::thr::systematic_families(cfg, rep, 0xC06A, &[0, 0, 0], &|_, _| {}, &|o, _| super::thr::must_receive(o).or_else(|| super::thr::common_order(o)));
   super::thr::campaign(cfg, rep, "thr", n, 0xC06F, &mut |r: &mut Rng| super::thr::random_scen(r, 0), &|o, _| {
     super::thr::must_receive(o).or_else(|| super::thr::common_order(o))
